@@ -1,36 +1,40 @@
 from vlib import Ob
+# C13: the construction of the corner table, decomposed into its three phases (each phase starts from an ARBITRARY state
+# satisfying the post-condition of the previous one, so the three obligations compose to CornerTable::Init), plus the
+# whole Init on two triangles.  Bounds are small: the symbolic encoding of this pointer-heavy code is expensive.
 H = 'C13/ct.cc'
-# push_back on vectors the harness adopted with enough capacity never grows; vector<bool> never leaves its first word
 BR = '_ZN5draco11CornerTable21BreakNonManifoldEdgesEv'
+# push_back on vectors the harness adopted with enough capacity never grows; vector<bool> never leaves its first word
 NOGROW = {'_ZNSt6vectorIN5draco9IndexTypeIjNS0_21CornerIndex_tag_type_EEESaIS3_EE17_M_realloc_insertIJRKS3_EEEvN9__gnu_cxx17__normal_iteratorIPS3_S5_EEDpOT_': 'unreachable',
           '_ZNSt6vectorIN5draco9IndexTypeIjNS0_21VertexIndex_tag_type_EEESaIS3_EE17_M_realloc_insertIJRKS3_EEEvN9__gnu_cxx17__normal_iteratorIPS3_S5_EEDpOT_': 'unreachable',
           '_ZNSt6vectorIbSaIbEE13_M_insert_auxESt13_Bit_iteratorb': 'unreachable'}
+def br_bounds(nf, passes):
+    return [BR + '.0:%d' % (nf + 1), BR + '.1:%d' % (nf + 1), BR + '.2:%d' % (nf + 1), BR + '.3:%d' % (3 * nf + 1), BR + '.4:%d' % passes]
 OBLIGATIONS = [
-  Ob('C13.opposite_2', H, 'h_opposite', tier='quick', unwind=8, defines={'NF': 2, 'NV': 4}, max_alloc=64,
-     bound='every list of 2 triangles over vertex ids 0..3 (degenerate, mirrored, duplicated included)',
-     covers='CornerTable::ComputeOppositeCorners'),
-  Ob('C13.break_2', H, 'h_break', tier='quick', unwind=7, mem_gb=20, timeout=900, defines={'NF': 2, 'NV': 4}, max_alloc=64,
-     unwindset=[BR + '.0:3', BR + '.1:3', BR + '.2:3', BR + '.3:7', BR + '.4:3'],
-     bound='ANY consistent table of 2 triangles over vertex ids 0..3 (inductive pre-state = post-condition of phase 1)',
-     covers='CornerTable::BreakNonManifoldEdges'),
-  Ob('C13.vertex_corners_2', H, 'h_vertex_corners', tier='quick', unwind=8, mem_gb=20, timeout=900, defines={'NF': 2, 'NV': 4}, max_alloc=64, stubs=NOGROW,
-     bound='ANY consistent table of 2 triangles over vertex ids 0..3, any vertex count covering the ids',
-     covers='CornerTable::ComputeVertexCorners, num_vertices, VertexParent data'),
   Ob('C13.opposite_2v3', H, 'h_opposite', tier='quick', unwind=8, defines={'NF': 2, 'NV': 3}, max_alloc=64, timeout=900,
-     bound='every list of 2 triangles over vertex ids 0..2', covers='CornerTable::ComputeOppositeCorners'),
-  Ob('C13.break_3', H, 'h_break', tier='thorough', unwind=10, backend='kissat', defines={'NF': 3, 'NV': 5}, max_alloc=64, mem_gb=20,
-     unwindset=[BR + '.0:4', BR + '.1:4', BR + '.2:4', BR + '.3:10', BR + '.4:5'],
-     bound='ANY consistent table of 3 triangles over vertex ids 0..4', covers='CornerTable::BreakNonManifoldEdges'),
+     bound='phase 1 on EVERY list of 2 triangles over vertex ids 0..2 (degenerate, mirrored, duplicated included)',
+     covers='CornerTable::ComputeOppositeCorners'),
+  Ob('C13.break_2', H, 'h_break', tier='quick', unwind=7, defines={'NF': 2, 'NV': 4}, max_alloc=64, mem_gb=20, timeout=900, unwindset=br_bounds(2, 3),
+     bound='phase 2 from ANY consistent table of 2 triangles over vertex ids 0..3 (pre-state = post-condition of phase 1); with 2 faces the edge-breaking branch is unreachable, this decides termination and that nothing is changed',
+     covers='CornerTable::BreakNonManifoldEdges'),
+  Ob('C13.vertex_corners_2', H, 'h_vertex_corners', tier='quick', unwind=8, defines={'NF': 2, 'NV': 4}, max_alloc=64, stubs=NOGROW, mem_gb=20, timeout=900,
+     bound='phase 3 from ANY consistent table of 2 triangles over vertex ids 0..3, any vertex count covering the ids',
+     covers='CornerTable::ComputeVertexCorners, num_vertices, vertex parents'),
+  Ob('C13.opposite_2', H, 'h_opposite', tier='thorough', unwind=8, defines={'NF': 2, 'NV': 4}, max_alloc=64,
+     bound='phase 1 on EVERY list of 2 triangles over vertex ids 0..3', covers='CornerTable::ComputeOppositeCorners'),
+  Ob('C13.break_3', H, 'h_break', tier='thorough', unwind=10, backend='kissat', defines={'NF': 3, 'NV': 5}, max_alloc=64, mem_gb=20, timeout=3400, unwindset=br_bounds(3, 5),
+     bound='phase 2 from ANY consistent table of 3 triangles over vertex ids 0..4 (the edge-breaking branch is reachable from 3 faces on)',
+     covers='CornerTable::BreakNonManifoldEdges'),
   Ob('C13.vertex_corners_3', H, 'h_vertex_corners', tier='thorough', unwind=11, defines={'NF': 3, 'NV': 5}, max_alloc=64, stubs=NOGROW, mem_gb=20,
-     bound='ANY consistent table of 3 triangles over vertex ids 0..4, any vertex count covering the ids',
-     covers='CornerTable::ComputeVertexCorners, num_vertices, VertexParent data'),
-  Ob('C13.init_2', H, 'h_init', tier='thorough', unwind=8, defines={'NF': 2, 'NV': 4}, max_alloc=64, stubs=NOGROW, mem_gb=20,
-     unwindset=[BR + '.0:3', BR + '.1:3', BR + '.2:3', BR + '.3:7', BR + '.4:3'],
-     bound='the whole construction on every list of 2 triangles over vertex ids 0..3', covers='CornerTable::Init = ComputeOppositeCorners + BreakNonManifoldEdges + ComputeVertexCorners, VertexParent, LeftMostCorner'),
-  Ob('C13.break_4', H, 'h_break', tier='extended', unwind=13, backend='kissat', defines={'NF': 4, 'NV': 5}, max_alloc=64, mem_gb=30,
-     unwindset=[BR + '.0:5', BR + '.1:5', BR + '.2:5', BR + '.3:13', BR + '.4:5'],
-     bound='ANY consistent table of 4 triangles over vertex ids 0..4', covers='CornerTable::BreakNonManifoldEdges'),
-  Ob('C13.break_3c', H, 'h_break', tier='extended', unwind=10, backend='cadical', defines={'NF': 3, 'NV': 5}, max_alloc=64, mem_gb=20,
-     unwindset=[BR + '.0:4', BR + '.1:4', BR + '.2:4', BR + '.3:10', BR + '.4:5'], bound='x', covers='x'),
+     bound='phase 3 from ANY consistent table of 3 triangles over vertex ids 0..4, any vertex count covering the ids',
+     covers='CornerTable::ComputeVertexCorners, num_vertices, vertex parents'),
+  Ob('C13.init_2', H, 'h_init', tier='thorough', unwind=8, defines={'NF': 2, 'NV': 4}, max_alloc=64, stubs=NOGROW, mem_gb=20, unwindset=br_bounds(2, 3),
+     bound='the whole construction on EVERY list of 2 triangles over vertex ids 0..3',
+     covers='CornerTable::Init = ComputeOppositeCorners + BreakNonManifoldEdges + ComputeVertexCorners, VertexParent, LeftMostCorner'),
+  Ob('C13.break_4', H, 'h_break', tier='extended', unwind=13, backend='kissat', defines={'NF': 4, 'NV': 5}, max_alloc=64, mem_gb=30, unwindset=br_bounds(4, 5),
+     bound='phase 2 from ANY consistent table of 4 triangles over vertex ids 0..4 (not registered: no verdict within the thorough cap)',
+     covers='CornerTable::BreakNonManifoldEdges'),
+  Ob('C13.break_3_hits', H, 'h_break', tier='extended', unwind=10, backend='kissat', defines={'NF': 3, 'NV': 5, 'BREAK_HITS': 1}, max_alloc=64, mem_gb=20, unwindset=br_bounds(3, 5),
+     bound='reachability twin of C13.break_3: its vacuity witness is reachable only through the edge-breaking branch', covers='CornerTable::BreakNonManifoldEdges'),
 ]
 META = {}
